@@ -179,6 +179,59 @@ func (r *Run) Explore(name string, fn *ssa.Function) *HarnessResult {
 			m.Debug = r.Cfg.Debug
 			m.DebugDepth = 6
 			m.WantScripts = r.Cfg.KeepScripts
+			var lastT, lastIO float64
+			var lastQ int
+			flush := func(m *xexec.Machine) {
+				mu.Lock()
+				for id, ag := range m.Agg {
+					a := hr.Obls[id]
+					if a == nil {
+						a = &OblAgg{}
+						hr.Obls[id] = a
+					}
+					a.Total += ag.Total
+					a.Trivial += ag.Trivial
+					a.Discharged += ag.Discharged
+					a.Violated += ag.Violated
+					a.Unknown += ag.Unknown
+					a.Ms += ag.Ms
+				}
+				for _, ob := range m.Obligations {
+					if ob.Verdict == "violated" {
+						hr.Violations = append(hr.Violations, ob)
+					}
+					if ob.Script != "" {
+						r.mu.Lock()
+						if len(r.scripts) < 4000 {
+								r.scripts = append(r.scripts, scriptRec{ob.Script, ob.Verdict})
+						}
+						r.mu.Unlock()
+					}
+				}
+				for k, v := range m.Bounds {
+					hr.Bounds[k] = v
+				}
+				r.mu.Lock()
+				r.Stats.Paths += m.Stats.Paths
+				r.Stats.Steps += m.Stats.Steps
+				r.Stats.Forks += m.Stats.Forks
+				r.Stats.FeasQueries += m.Stats.FeasQueries
+				r.Stats.AssertQueries += m.Stats.AssertQueries
+				r.Stats.Unknown += m.Stats.Unknown
+				r.Stats.Unwind += m.Stats.Unwind
+				r.Stats.CacheHits += m.Stats.CacheHits
+				r.Stats.Summaries += m.Stats.Summaries
+				r.Stats.SummaryHits += m.Stats.SummaryHits
+				for k, v := range m.Stats.FuncsEncoded {
+					r.FuncsEnc[k] += v
+				}
+				r.SolverS += solver.Time.Seconds() - lastT
+				r.SolverIO += solver.IOTime.Seconds() - lastIO
+				r.Queries += solver.Queries - lastQ
+				lastT, lastIO, lastQ = solver.Time.Seconds(), solver.IOTime.Seconds(), solver.Queries
+				r.mu.Unlock()
+				mu.Unlock()
+			}
 			for {
 				mu.Lock()
 				for len(stack) == 0 && active > 0 && !done {
@@ -195,6 +248,13 @@ func (r *Run) Explore(name string, fn *ssa.Function) *HarnessResult {
 				active++
 				mu.Unlock()
 
+				if m.Ctx().NumTerms() > 1_500_000 {
+					flush(m)
+					m = xexec.NewMachine(r.P, solver)
+					m.Debug = r.Cfg.Debug
+					m.DebugDepth = 6
+					m.WantScripts = r.Cfg.KeepScripts
+				}
 				res, pending := m.RunPath(fn, pre)
 
 				var wit *Witness
@@ -241,56 +301,7 @@ func (r *Run) Explore(name string, fn *ssa.Function) *HarnessResult {
 				cond.Broadcast()
 				mu.Unlock()
 			}
-			mu.Lock()
-			for _, ob := range m.Obligations {
-				a := hr.Obls[ob.ID]
-				if a == nil {
-					a = &OblAgg{}
-					hr.Obls[ob.ID] = a
-				}
-				a.Total++
-				a.Ms += ob.Ms
-				switch ob.Verdict {
-				case "trivial":
-					a.Trivial++
-				case "discharged":
-					a.Discharged++
-				case "violated":
-					a.Violated++
-					hr.Violations = append(hr.Violations, ob)
-				case "unknown":
-					a.Unknown++
-				}
-				if ob.Script != "" && ob.Verdict != "trivial" {
-					r.mu.Lock()
-					if len(r.scripts) < 4000 {
-						r.scripts = append(r.scripts, scriptRec{ob.Script, ob.Verdict})
-					}
-					r.mu.Unlock()
-				}
-			}
-			for k, v := range m.Bounds {
-				hr.Bounds[k] = v
-			}
-			r.mu.Lock()
-			r.Stats.Paths += m.Stats.Paths
-			r.Stats.Steps += m.Stats.Steps
-			r.Stats.Forks += m.Stats.Forks
-			r.Stats.FeasQueries += m.Stats.FeasQueries
-			r.Stats.AssertQueries += m.Stats.AssertQueries
-			r.Stats.Unknown += m.Stats.Unknown
-			r.Stats.Unwind += m.Stats.Unwind
-			r.Stats.CacheHits += m.Stats.CacheHits
-			r.Stats.Summaries += m.Stats.Summaries
-			r.Stats.SummaryHits += m.Stats.SummaryHits
-			for k, v := range m.Stats.FuncsEncoded {
-				r.FuncsEnc[k] += v
-			}
-			r.SolverS += solver.Time.Seconds()
-			r.SolverIO += solver.IOTime.Seconds()
-			r.Queries += solver.Queries
-			r.mu.Unlock()
-			mu.Unlock()
+			flush(m)
 		}(w)
 	}
 	wg.Wait()
